@@ -368,6 +368,36 @@ pub fn c10_child(seed: u64, n: usize, dir: &str, tier: &str) {
                 }
             }
         }
+        // well-formed strings with hostile content: the first / last bytes of every string payload are
+        // overwritten by a 2-, 3- and 4-byte UTF-8 character (the buffer still decodes; code that slices
+        // rule text at byte offsets must cope)
+        for (i, b) in good.iter().enumerate() {
+            let (start, len) = if (0xa2..=0xbf).contains(b) {
+                (i + 1, (*b - 0xa0) as usize)
+            } else if *b == 0xd9 && i + 1 < good.len() {
+                (i + 2, good[i + 1] as usize)
+            } else {
+                continue;
+            };
+            if len < 2 || start + len > good.len() || std::str::from_utf8(&good[start..start + len]).is_err() {
+                continue;
+            }
+            if tier == "quick" && len < 4 && i % 2 == (seed as usize) % 2 {
+                continue;
+            }
+            for ch in ["\u{e9}", "\u{20ac}", "\u{1f600}"] {
+                let cb = ch.as_bytes();
+                if cb.len() > len {
+                    continue;
+                }
+                for at_end in [false, true] {
+                    let mut v = good.clone();
+                    let pos = if at_end { start + len - cb.len() } else { start };
+                    v[pos..pos + cb.len()].copy_from_slice(cb);
+                    variants.push((format!("utf8 {}-byte char at {} of string at {}", cb.len(), if at_end { "end" } else { "start" }, i), v));
+                }
+            }
+        }
         // random multi-byte corruptions
         for k in 0..n {
             let mut v = good.clone();
